@@ -167,6 +167,9 @@ func checkC03(c *Ctx) {
 	// ---- the version a proof's leaf / inner ops carry is the node key's version: it must be the version the node was hashed with
 	c.rule("OWN-node-version", "a node's version (hashed into it, and copied into proof ops) is fixed when the node is created or first keyed", 1)
 	checkNodeVersionOwner(c)
+	// ---- a proof is read off the memoised hashes: they must not survive a structural change
+	c.rule("TYPESTATE-stale-hash", "fields that enter the hash pre-image are written only on freshly copied nodes", 15)
+	checkStaleHashV1(c)
 	// ---- neighbours of an absent key
 	c.rule("TABLE-neighbours", "absence proof: left neighbour = rank-1 (if rank >= 1), right neighbour = rank (if present), each proved by an existence proof", 5)
 	if gbi := l.Func("", "*ImmutableTree.GetByIndex"); gnm != nil && gwi != nil && cep != nil && gbi != nil {
